@@ -235,7 +235,9 @@ CLAIMED['C07'] = dict(
         "(generator/annealer/proposal copies per chain, generator of every drawing site, scan for mutable objects reachable from two "
         "chains) against the constructed graph under vm_compute; direct: per-chain histories under seven map implementations and real "
         "multiprocessing pools (thorough) against the built-in map, and perturbation of one chain's start.",
-   note=WIRE_NOTE, technique="Coq proof (frame/locality lemmas, induction over evaluation schedules, arithmetic disjointness of allocations) + vm_compute correspondence of the object graph",
+   note=WIRE_NOTE + " Source tie (Props/C07_src.v): that Chain.state stores and Chain.set_state hands on a deep copy of the proposals' state is read off "
+        "/repo's chain.py on every run (tools/py2coq_state.py); with those flags the heap theorem says that one state object loaded into "
+        "several samplers does not couple them.", technique="Coq proof (frame/locality lemmas, induction over evaluation schedules, arithmetic disjointness of allocations) + vm_compute correspondence of the object graph",
    ref="DESIGN.md section 3, C07")
 CLAIMED['C04'] = dict(
    text="Partial by nature (bit-reproducibility of numpy/scipy/CPython across processes is sampled, not modelled). Theorems about the wiring "
